@@ -151,7 +151,10 @@ func (c *Ctx) reportFamily(p *Profile, mm []Mismatch, extra func(Mismatch) bool)
 
 // summarise verdict classes for evidence
 func (c *Ctx) verdictStats(calls []*Call) {
-	fin := map[string]int{}
+	fin, _ := c.Cov["contract_verdicts"].(map[string]int) // merged when called once per batch
+	if fin == nil {
+		fin = map[string]int{}
+	}
 	nrec := 0
 	for _, cl := range calls {
 		fin[cl.Final+": "+cl.Why]++
